@@ -72,31 +72,7 @@ def check(ctx, run):
     dfi = prog.functions.get(L + "HedgeLoss.cash")
     if dfi is None:
         raise AnalysisError("anchor vanished: HedgeLoss.cash")
-    o = Obj(L + "IsoelasticLoss", "iso", dict(a=a_))
-    res = [r for r in interp.explore(dfi, [x, W.tensor("target")], {}, self_obj=o, max_paths=200)]
-    bis = [e for r in res for e in r["events"] if e["kind"] == "call" and e["callee"].endswith("bisect.bisect") and e["fn"].endswith("HedgeLoss.cash")]
-    ok = bool(bis)
-    for e in bis[:1]:
-        args = list(e["args"])
-        A = SampleAlgebra(assume_positive={"a"})
-        plx = xi - A.sym("target")
-        from ..samplealg import MAXR, MINR
-        try:
-            from ..interp import BoundMethod
-            is_self = args[0] is o or (isinstance(args[0], BoundMethod) and args[0].obj is o and args[0].fi.qualname.endswith((".forward", ".__call__")))
-            ok = ok and len(args) >= 4 and is_self and sp.simplify(A.conv(args[2]) - MINR(plx)) == 0 and sp.simplify(A.conv(args[3]) - MAXR(plx)) == 0
-        except NotImplementedError:
-            ok = False
-        # the level to match is the criterion of the same P&L: self(pl)
-        own = [c_ for r in res for c_ in r["events"] if c_["kind"] == "module_call" and c_["recv"] is o and c_["fn"].endswith("HedgeLoss.cash")]
-        try:
-            ok = ok and bool(own) and isinstance(args[1], Op) and sp.simplify(A.conv(own[0]["args"][0]) - plx) == 0 and len(own[0]["args"]) == 1 and not own[0]["kwargs"]
-        except NotImplementedError:
-            ok = False
-    run.oblige("C06.R2", "HedgeLoss.cash == bisect(self, self(pl), pl.min(), pl.max()) with pl = input - target", ok, str([str(a)[:50] for a in bis[0]["args"]]) if bis else "no bisect")
-    if not ok:
-        run.fail(Finding("C06.R2", dfi.qualname, "bisect(self, self(pl), pl.min(), pl.max())", "the default certainty-equivalent search must solve criterion(c) = criterion(pl) between the worst and the best outcome",
-                         file=str(prog.modules[dfi.module].path), line=dfi.node.lineno))
+    default_search_rule(ctx, run, dfi)
     # ---- R4 shift response of cash
     run.require("C06.R4", 4)
     for cls, attrs, signs in (("EntropicRiskMeasure", dict(a=a_), {"a": 1}), ("ExpectedShortfall", dict(p=p_), {"p": 1}), ("EntropicLoss", dict(a=a_), {"a": 1}), ("QuadraticCVaR", dict(lam=lam_), {"lam": 1})):
@@ -188,3 +164,104 @@ def check(ctx, run):
     run.oblige("C06.R5", "EntropicRiskMeasure: price == loss (same term)", ok, "")
     if not ok:
         run.fail(Finding("C06.R5", price.qualname, "price vs compute_loss with EntropicRiskMeasure", "for the entropic risk measure the quoted price must equal the loss", file=str(prog.modules[price.module].path), line=price.node.lineno))
+
+
+def default_search_rule(ctx, run, dfi):
+    """R2: HedgeLoss.cash solves, COLUMN BY COLUMN of an (N, *) sample, criterion(constant sample at c) = criterion(pl), pl = input - target, on
+    the bracket [min, max] of that column:  (a) the level handed to bisect is self(pl);  (b) both ends are reductions of pl along the path
+    axis only (value MINR / MAXR, shape (*));  (c) every evaluation of the criterion inside the search is on a tensor of the sample's shape
+    (N, *) whose entries are the search variable (a constant sample per column), never on the bare variable;  (d) the bracket is accepted
+    for every admissible sample, including a constant one (min == max)."""
+    from ..interp import BoundMethod, Closure
+    from ..samplealg import MAXR, MINR
+    from ..shape import N as Nn, ShapeError, Unknown, shape_of
+    from .c19 import _is_cmp
+    prog, interp = ctx.prog, ctx.interp
+    x, a_ = W.tensor("x"), W.fl("a")
+    o = Obj(L + "IsoelasticLoss", "iso", dict(a=a_))
+    res = [r for r in interp.explore(dfi, [x, W.tensor("target")], {}, self_obj=o, max_paths=200)]
+    bis = [e for r in res for e in r["events"] if e["kind"] == "call" and e["callee"].endswith("bisect.bisect") and e["fn"].endswith("HedgeLoss.cash")]
+    problems, degenerate = [], None
+    if not bis:
+        problems.append("no call to bisect")
+    else:
+        args = list(bis[0]["args"]) + [None] * 4
+        kw = bis[0]["kwargs"]
+        fn_, level, lo, hi = [kw.get(k, v) for k, v in zip(("fn", "target", "lower", "upper"), args[:4])]
+        A = SampleAlgebra(assume_positive={"a"})
+        plx = xi - A.sym("target")
+        Ms = sp.Symbol("M", integer=True, positive=True)
+        env = {"x": (Nn, Ms), "target": (Nn, Ms)}
+        # (a) level
+        own = [c_ for r in res for c_ in r["events"] if c_["kind"] == "module_call" and c_["recv"] is o and c_["fn"].endswith("HedgeLoss.cash")]
+        try:
+            if not (own and isinstance(level, Op) and len(own[0]["args"]) == 1 and not own[0]["kwargs"] and sp.simplify(A.conv(own[0]["args"][0]) - plx) == 0):
+                problems.append("the level to match is not criterion(input - target)")
+        except (NotImplementedError, TypeError):
+            problems.append("the level to match is not criterion(input - target)")
+        # (b) bracket ends
+        for nm, end, RED in (("lower", lo, MINR), ("upper", hi, MAXR)):
+            try:
+                A.dims_seen.clear()
+                v = A.conv(end)
+                if sp.simplify(v - RED(plx)) != 0:
+                    problems.append(f"{nm} end is {v}, expected the {'minimum' if RED is MINR else 'maximum'} of input - target")
+                elif any(d != 0 for op_, d in A.dims_seen if op_ in ("min", "max", "amin", "amax")):
+                    problems.append(f"{nm} end is the {'minimum' if RED is MINR else 'maximum'} over ALL entries of the sample, not per column (reduce along dim 0)")
+                else:
+                    sh = shape_of(end, env)
+                    if tuple(sh) != (Ms,):
+                        problems.append(f"{nm} end has shape {tuple(str(d) for d in sh)} for an (N, M) sample, expected (M)")
+            except (NotImplementedError, TypeError, Unknown, ShapeError) as ex:
+                problems.append(f"{nm} end {str(end)[:60]} is not a reduction of input - target ({ex})")
+        # (c) evaluations of the criterion inside the search
+        inner = [c_ for r in res for c_ in r["events"] if not c_.get("fn", "").endswith("HedgeLoss.cash") and c_.get("recv") is o
+                 and (c_["kind"] == "module_call" or (c_["kind"] == "call" and c_["callee"].endswith((".forward", ".__call__"))))]
+        if not inner:
+            problems.append("the criterion is never evaluated inside the search")
+        for c_ in inner[:6]:
+            arg = c_["args"][0] if c_["args"] else None
+            try:
+                sh = shape_of(arg, env)
+            except (Unknown, ShapeError) as ex:
+                problems.append(f"criterion evaluated on {str(arg)[:60]} ({ex})")
+                continue
+            if tuple(sh) != (Nn, Ms):
+                problems.append(f"criterion evaluated on a tensor of shape {tuple(str(d) for d in sh)} (the bare search variable) instead of a constant sample of shape (N, M): columns are mixed")
+                break
+            # the sample may enter only through the bracket ends (the search points are built from them) or as a shape donor
+            bad = False
+
+            def visit(t, donor=False):
+                nonlocal bad
+                if t == lo or t == hi:
+                    return
+                if t == x and not donor:
+                    bad = True
+                if isinstance(t, Op):
+                    for k, s_ in enumerate(t.args):
+                        if isinstance(s_, (Op, Sym)):
+                            visit(s_, donor or (t.op in ("expand_as", "view_as", "reshape_as") and k == 1) or (t.op in ("zeros_like", "ones_like", "full_like", "size", "empty_like") and k == 0))
+            visit(arg)
+            if bad:
+                problems.append("the tensor the criterion is evaluated on inside the search depends on the sample values")
+                break
+        # (d) degenerate bracket
+        guards = [g for r in res for g in r["events"] if g["kind"] == "guard" and g.get("fn", "").endswith("bisect.bisect")]
+        strict = any(_is_cmp(g["cond"], lo, hi, {"lt"}, negated=True) for g in guards)
+        plain = False
+        try:
+            plain = sp.simplify(A.conv(lo) - MINR(plx)) == 0 and sp.simplify(A.conv(hi) - MAXR(plx)) == 0
+        except (NotImplementedError, TypeError):
+            pass
+        if strict and plain:
+            degenerate = "bracket [min(pl), max(pl)] is empty for a constant sample and bisect demands lower < upper"
+    ok = not problems
+    run.oblige("C06.R2", "HedgeLoss.cash: per column, bisect(c -> criterion(constant sample c), criterion(pl), min(pl), max(pl)), pl = input - target", ok, "; ".join(problems) or "level, bracket ends (shape (*)) and constant-sample evaluations agree")
+    if not ok:
+        run.fail(Finding("C06.R2", dfi.qualname, "; ".join(problems)[:300], "the default certainty-equivalent search must solve criterion(constant c) = criterion(pl) per column between the worst and the best outcome of that column",
+                         file=str(prog.modules[dfi.module].path), line=dfi.node.lineno))
+    run.oblige("C06.R2", "HedgeLoss.cash: the search accepts every admissible sample, including a constant one", degenerate is None, degenerate or "bracket is never degenerate / bisect accepts lower == upper")
+    if degenerate:
+        run.fail(Finding("C06.R2", dfi.qualname, "degenerate bracket for a constant sample", degenerate + ": cash() raises ValueError although the certainty equivalent of a constant sample is that constant",
+                         file=str(prog.modules[dfi.module].path), line=dfi.node.lineno, witness="IsoelasticLoss(0.5).cash(torch.full((10,), 1.3)) raises ValueError"))
